@@ -176,7 +176,9 @@ def list_targets(coredata: cdata.CoreData, builddata: build.Build, backend: back
         if not isinstance(target, build.Target):
             raise RuntimeError('The target object in `builddata.get_targets()` is not of type `build.Target`. Please file a bug with this error message.')
 
-        outdir = get_target_dir(builddata.environment.coredata, target.get_builddir())
+        # Ask the backend, which is what decides where the outputs go (with
+        # layout=flat that includes the target's build_subdir).
+        outdir = backend.get_target_dir(target)
         t = {
             'name': target.get_basename(),
             'id': idname,
